@@ -35,7 +35,7 @@ if ROUND == "r4":
     REBASED = {k: f"/tmp/rebased/{k.replace('-mutant', '-r4-mutant')}/patch.diff" for k in ("C01-mutant-a", "C01-mutant-b", "C11-mutant-b", "C16-mutant-b")}
     EXTRA = json.load(open(os.environ["SEED_EXTRA"])) if os.environ.get("SEED_EXTRA") else {}
 
-if ROUND in ("r5", "r6", "r7", "r8"):
+if ROUND in ("r5", "r6", "r7", "r8", "r9"):
     PKG, RACE_DEMO, REBASED = {}, set(), {}
     EXTRA = json.load(open(os.environ["SEED_EXTRA"])) if os.environ.get("SEED_EXTRA") else {}
 
@@ -89,7 +89,7 @@ def main():
             rebased = open(patch).read() != open(f"{d}/patch.diff").read()
             pkgdir = PKG.get(key, PKG.get(prop, "."))
             try:
-                dd = json.load(open(f"{d}/meta.json")).get("demo_dir")
+                _m = json.load(open(f"{d}/meta.json")); dd = _m.get("demo_dir") or _m.get("demo_package_dir")
                 if dd and dd != "main" and os.path.isdir(f"{REPO}/{dd}"): pkgdir = dd.strip("/") or "."
             except Exception: pass
             race = key in RACE_DEMO
